@@ -11,7 +11,7 @@ ID = 'C14'
 RULE = ('three kinds of cases. rev: lists of DNA strings (all strings up to a length bound over the ten symbols '
         'ACGTNacgtn, packed as rows of one ragged array, empty rows included, plus longer random rows) in ASCII, ACGT '
         'and ACGTN encoding, reverse-complemented once (ragged array, SequenceEntry, each row as a flat array) and '
-        'twice; str: a reference string and a set of stranded intervals (every [a,b) of short references, random '
+        'twice (with an untouched and with a materialised intermediate), also on inputs that are not yet materialised views built by prior indexing (row slice, step, mask, fancy index, column slices, reversed columns); str: a reference string and a set of stranded intervals (every [a,b) of short references, random '
         'sets on longer ones, empty intervals included) through get_strand_specific_sequences (3 encodings), '
         'GenomicSequence.from_dict and Genome.from_file(...).read_sequence(); tr: all 64 codons, all pairs of '
         'codons, random concatenations in mixed case, empty rows. Every expected value is computed inside Coq from '
@@ -27,6 +27,78 @@ PER_FILE = 40
 ALPH = {0: 'ACGTNacgtn', 1: 'ACGTacgt', 2: 'ACGTNacgtn'}
 ERR = {'EncodingError': 1, 'AssertionError': 2, 'IndexError': 3, 'KeyError': 4, 'AttributeError': 5, 'ValueError': 5}
 CODONS = [''.join(p) for p in itertools.product('ACGT', repeat=3)]
+
+
+# ----------------------------------------------------------------------------- lazy views
+# A case may carry 'view': the ragged input handed to the library is then a NOT YET MATERIALISED npstructures view built
+# by indexing a freshly encoded base array (row slice, step, boolean mask, fancy index, column slices, reversed columns;
+# 'rc' = the untouched result of a previous get_reverse_complement).  _eff() applies the same indexing to the Python
+# list of rows: that is the input the property (and the Coq side, which stays list-of-rows) speaks about.
+def _apply_view(rows, view, enc=0):
+    k = view['kind']
+    if k == 'rows':
+        return rows[view['a']:view['b']]
+    if k == 'step':
+        return rows[view['a']::view['k']]
+    if k == 'mask':
+        return [r for r, m in zip(rows, view['mask']) if m]
+    if k == 'fancy':
+        return [rows[i] for i in view['idx']]
+    if k == 'cols_from':
+        return [r[view['a']:] for r in rows]
+    if k == 'cols_to':
+        return [r[:view['b']] for r in rows]
+    if k == 'cols_rev':
+        return [r[::-1] for r in rows]
+    if k == 'rows_cols':
+        return [r[view['c']:] for r in rows[view['a']:]]
+    if k == 'rc':
+        return [_rc(r) if enc == 0 else _rc(r).upper() for r in rows]
+    raise ValueError(k)
+
+
+def _eff(case):
+    return _apply_view(case['rows'], case['view'], case.get('enc', 0)) if case.get('view') else case['rows']
+
+
+def _index_view(x, view):
+    """the same indexing on a bionumpy ragged array; nothing here looks at the result"""
+    import numpy as np
+    k = view['kind']
+    if k == 'rows':
+        return x[view['a']:view['b']]
+    if k == 'step':
+        return x[view['a']::view['k']]
+    if k == 'mask':
+        return x[np.array(view['mask'], dtype=bool)]
+    if k == 'fancy':
+        return x[list(view['idx'])]
+    if k == 'cols_from':
+        return x[:, view['a']:]
+    if k == 'cols_to':
+        return x[:, :view['b']]
+    if k == 'cols_rev':
+        return x[:, ::-1]
+    if k == 'rows_cols':
+        return x[view['a']:, view['c']:]
+    if k == 'rc':
+        from bionumpy.sequence import get_reverse_complement
+        return get_reverse_complement(x)
+    raise ValueError(k)
+
+
+def _views(rng, n, col=1, with_rc=False):
+    """a set of view descriptions for a base array of n >= 3 rows; col = column step unit (3 keeps codon rows)"""
+    vs = [dict(kind='rows', a=1, b=None), dict(kind='rows', a=rng.randint(1, n - 1), b=n - rng.randint(0, 1)),
+          dict(kind='step', a=0, k=2), dict(kind='step', a=1, k=rng.choice([2, 3])),
+          dict(kind='mask', mask=[rng.random() < 0.6 for _ in range(n)]),
+          dict(kind='fancy', idx=[rng.randrange(n) for _ in range(rng.randint(1, n))]),
+          dict(kind='fancy', idx=list(range(n))[::-1]),
+          dict(kind='cols_from', a=col), dict(kind='cols_to', b=-col), dict(kind='cols_rev'),
+          dict(kind='rows_cols', a=1, c=col)]
+    if with_rc:
+        vs.append(dict(kind='rc'))
+    return vs
 
 
 # ----------------------------------------------------------------------------- generator
@@ -66,6 +138,14 @@ def generate(tier, seed):
                          ALPH[enc] if i % 3 else ALPH[enc].upper()) for _ in range(n)]
             cases.append(dict(op='rev', enc=enc, rows=rows))
 
+    # ---- rev on lazy views (input built by prior indexing, fresh per call)
+    for enc in (0, 1, 2):
+        for i in range(6 if quick else 40):
+            n = rng.randint(3, 7)
+            base = [rstr(rng.choice([0, 1, 2, 4, 7, 12]), ALPH[enc] if (i % 2 or enc) else ALPH[enc].upper()) for _ in range(n)]
+            for v in _views(rng, n):
+                cases.append(dict(op='rev', enc=enc, rows=base, view=v))
+
     # ---- tr: all codons, all pairs, random concatenations
     for rows in _pack(CODONS, 8):
         cases.append(dict(op='tr', rows=rows + ['']))
@@ -84,6 +164,11 @@ def generate(tier, seed):
                 s = ''.join(ch.lower() if rng.random() < 0.4 else ch for ch in s)
             rows.append(s)
         cases.append(dict(op='tr', rows=rows))
+    for i in range(5 if quick else 30):
+        n = rng.randint(3, 6)
+        base = [''.join(rng.choice(CODONS) for _ in range(rng.choice([0, 1, 2, 3, 5]))) for _ in range(n)]
+        for v in _views(rng, n, col=3, with_rc=True):
+            cases.append(dict(op='tr', rows=base, view=v))
     if not quick:
         triples = [''.join(rng.choice(CODONS) for _ in range(3)) for _ in range(12800)]
         for rows in _pack(triples, 64):
@@ -116,7 +201,10 @@ def generate(tier, seed):
                 ivs.append([a, b, st])
             if i % 10 == 9:
                 ivs[0][2] = '.'        # not quantified by the property: only model_ok looks at this row
-            cases.append(dict(op='str', route=route, enc=enc, ref=ref, ivs=ivs))
+            c = dict(op='str', route=route, enc=enc, ref=ref, ivs=ivs)
+            if route == 0 and i % 3 == 0:
+                c['refview'] = ['offset', 'rev', 'step'][(i // 3) % 3]   # the reference itself is a view of a longer / reversed / interleaved array
+            cases.append(c)
     return cases
 
 
@@ -145,28 +233,54 @@ def observe(case):
     encs = {0: None, 1: DNAEncoding, 2: ACGTnEncoding}
     op = case['op']
     if op == 'rev':
-        rows, enc = case['rows'], encs[case['enc']]
-        out = dict(bio=[_bio_rc(s).encode().hex() for s in rows], once=[])
+        rows, enc, view = _eff(case), encs[case['enc']], case.get('view')
+        out = dict(bio=[_bio_rc(s).encode().hex() for s in rows], once=[], twice=[])
 
         def enc_arr(x):
             return as_encoded_array(x, enc) if enc is not None else as_encoded_array(x)
+
+        def fresh():
+            """the input array, constructed anew for every call; with a view: never looked at before it is handed over"""
+            if view:
+                return _index_view(enc_arr(case['rows']), view)
+            return enc_arr(rows)
         try:
-            s = enc_arr(rows)
+            fresh()
         except Exception as e:
             out['once'].append(_err(e))
-            out['twice'] = _err(e)
+            out['twice'].append(_err(e))
             return out
+        # applied twice WITHOUT touching the intermediate result in any way (it stays an unmaterialised view)
         try:
+            rr = get_reverse_complement(get_reverse_complement(fresh()))
+            out['twice'].append([0, _rows(rr)])
+        except Exception as e:
+            out['twice'].append(_err(e))
+        try:
+            s = fresh()
             r = get_reverse_complement(s)
-            ok = r.lengths.tolist() == s.lengths.tolist() and r.encoding == s.encoding
-            out['once'].append([0 if ok else 9, _rows(r)])
+            got = _rows(r)                                    # materialises r
+            ok = r.lengths.tolist() == [len(x) for x in rows] and r.encoding == s.encoding
+            out['once'].append([0 if ok else 9, got])
             try:
-                out['twice'] = [0, _rows(get_reverse_complement(r))]
+                out['twice'].append([0, _rows(get_reverse_complement(r))])      # materialised intermediate
             except Exception as e:
-                out['twice'] = _err(e)
+                out['twice'].append(_err(e))
         except Exception as e:
             out['once'].append(_err(e))
-            out['twice'] = _err(e)
+            out['twice'].append(_err(e))
+        # the result used before it is ever iterated: lengths, ravel
+        try:
+            r = get_reverse_complement(fresh())
+            flat = r.ravel().to_string()
+            lens = r.lengths.tolist()
+            cut, pos = [], 0
+            for n in lens:
+                cut.append(flat[pos:pos + n].encode('latin1').hex())
+                pos += n
+            out['once'].append([0 if pos == len(flat) else 9, cut])
+        except Exception as e:
+            out['once'].append(_err(e))
         # each row as a flat EncodedArray
         try:
             flat = []
@@ -176,29 +290,40 @@ def observe(case):
             out['once'].append([0, flat])
         except Exception as e:
             out['once'].append(_err(e))
-        # the dataclass route (sequence column is ASCII)
+        # the dataclass route (sequence column is ASCII); with a row view the dataclass itself is indexed
         if case['enc'] == 0 and rows:
             try:
-                se = SequenceEntry.from_entry_tuples([('s%d' % i, x) for i, x in enumerate(rows)])
+                if view and view['kind'] in ('rows', 'step', 'mask', 'fancy'):
+                    names = _apply_view(['s%d' % i for i in range(len(case['rows']))], view)
+                    se = _index_view(SequenceEntry.from_entry_tuples([('s%d' % i, x) for i, x in enumerate(case['rows'])]), view)
+                else:
+                    names = ['s%d' % i for i in range(len(rows))]
+                    se = SequenceEntry.from_entry_tuples([(n, x) for n, x in zip(names, rows)])
                 r = get_reverse_complement(se)
-                ok = [n.to_string() for n in r.name] == ['s%d' % i for i in range(len(rows))]
+                ok = [n.to_string() for n in r.name] == names
                 out['once'].append([0 if ok else 9, _rows(r.sequence)])
             except Exception as e:
                 out['once'].append(_err(e))
         return out
     if op == 'tr':
         from Bio.Seq import Seq
-        rows = case['rows']
+        rows, view = _eff(case), case.get('view')
         out = dict(bio=[str(Seq(s).translate()).encode().hex() for s in rows], outs=[])
         try:
-            r = translate_dna_to_protein(as_encoded_array(rows))
+            x = _index_view(as_encoded_array(case['rows']), view) if view else as_encoded_array(rows)
+            r = translate_dna_to_protein(x)
             out['outs'].append([0, _rows(r)])
         except Exception as e:
             out['outs'].append(_err(e))
         try:
-            se = SequenceEntry.from_entry_tuples([('s%d' % i, x) for i, x in enumerate(rows)])
+            if view and view['kind'] in ('rows', 'step', 'mask', 'fancy'):
+                names = _apply_view(['s%d' % i for i in range(len(case['rows']))], view)
+                se = _index_view(SequenceEntry.from_entry_tuples([('s%d' % i, x) for i, x in enumerate(case['rows'])]), view)
+            else:
+                names = ['s%d' % i for i in range(len(rows))]
+                se = SequenceEntry.from_entry_tuples([(n, x) for n, x in zip(names, rows)])
             r = translate_dna_to_protein(se)
-            ok = [n.to_string() for n in r.name] == ['s%d' % i for i in range(len(rows))]
+            ok = [n.to_string() for n in r.name] == names
             out['outs'].append([0 if ok else 9, _rows(r.sequence)])
         except Exception as e:
             out['outs'].append(_err(e))
@@ -211,7 +336,19 @@ def observe(case):
     try:
         if route == 0:
             enc = encs[case['enc']]
-            r = get_strand_specific_sequences(as_encoded_array(ref, enc) if enc is not None else as_encoded_array(ref), I)
+
+            def E(x):
+                return as_encoded_array(x, enc) if enc is not None else as_encoded_array(x)
+            rv = case.get('refview')
+            if rv == 'offset':
+                refarr = E('GA' + ref + 'T')[2:-1]
+            elif rv == 'rev':
+                refarr = E(ref[::-1])[::-1]
+            elif rv == 'step':
+                refarr = E(''.join(ch + 'A' for ch in ref))[::2]
+            else:
+                refarr = E(ref)
+            r = get_strand_specific_sequences(refarr, I)
         elif route == 1:
             from bionumpy.genomic_data.genomic_sequence import GenomicSequence
             r = GenomicSequence.from_dict({'c': ref, 'd': 'GGGG'}).extract_intervals(I, stranded=True)
@@ -248,10 +385,10 @@ def _srows(rows):
 def to_coq(case, o):
     op = case['op']
     if op == 'rev':
-        return 'CRev %s %s %s %s %s' % (cz(case['enc']), _srows(case['rows']), clist([_obs(x) for x in o['once']], 'obs'),
-                                        _obs(o['twice']), _hrows(o['bio']))
+        return 'CRev %s %s %s %s %s' % (cz(case['enc']), _srows(_eff(case)), clist([_obs(x) for x in o['once']], 'obs'),
+                                        clist([_obs(x) for x in o['twice']], 'obs'), _hrows(o['bio']))
     if op == 'tr':
-        return 'CTr %s %s %s' % (_srows(case['rows']), clist([_obs(x) for x in o['outs']], 'obs'), _hrows(o['bio']))
+        return 'CTr %s %s %s' % (_srows(_eff(case)), clist([_obs(x) for x in o['outs']], 'obs'), _hrows(o['bio']))
     ivs = clist(['(%s, %s, %s)' % (cz(a), cz(b), cz(ord(st))) for a, b, st in case['ivs']], '(Z*Z*Z)')
     return 'CStr %s %s %s %s %s %s' % (cz(case['route']), cz(case['enc']), hx(case['ref'].encode()), ivs, _obs(o['o']), _hrows(o['bio']))
 
@@ -264,9 +401,9 @@ def _rc(s):
 def nontrivial(case, o):
     op = case['op']
     if op == 'rev':
-        return any(len(s) >= 2 and _rc(s) != s and s[::-1] != s for s in case['rows'])
+        return any(len(s) >= 2 and _rc(s) != s and s[::-1] != s for s in _eff(case))
     if op == 'tr':
-        return any(len(s) >= 3 for s in case['rows'])
+        return any(len(s) >= 3 for s in _eff(case))
     return any(st == '-' and b - a >= 2 for a, b, st in case['ivs'])
 
 
@@ -284,9 +421,12 @@ def describe(case, o):
 
 
 def distribution(cases, obs):
-    d = dict(rev={}, tr=0, str={}, rows=0, empty_rows=0, lower_case_rows=0, codons=0, intervals=0, minus=0,
+    d = dict(rev={}, tr=0, str={}, lazy_view_inputs={}, rows=0, empty_rows=0, lower_case_rows=0, codons=0, intervals=0, minus=0,
              empty_intervals=0, errors={})
     for c, o in zip(cases, obs):
+        vk = (c['op'] + ':' + c['view']['kind']) if c.get('view') else ('str:ref_' + c['refview'] if c.get('refview') else None)
+        if vk:
+            d['lazy_view_inputs'][vk] = d['lazy_view_inputs'].get(vk, 0) + 1
         if c['op'] == 'rev':
             k = 'enc%d' % c['enc']
             d['rev'][k] = d['rev'].get(k, 0) + 1
@@ -330,7 +470,7 @@ def finding(case, o):
     op = case['op']
     if op == 'rev' and case['enc'] == 0 and o['once'] and o['once'][0][0] == 0:
         got = [bytes.fromhex(h).decode('latin1') for h in o['once'][0][1]]
-        if _nul_for_lower(case['rows'], got, [_rc(s) for s in case['rows']]):
+        if _nul_for_lower(None, got, [_rc(s) for s in _eff(case)]):
             return 'C14-ascii-lowercase-complement'
     if op == 'str':
         ivs = case['ivs']
